@@ -164,13 +164,20 @@ func (s *Server) serve(ctx context.Context, listener net.Listener, handler Modbu
 			}
 		}
 
+		cCtx := context.WithValue(ctx, ContextRemoteAddr{}, netConn.RemoteAddr())
 		select {
 		case <-ctx.Done():
+			// this connection is already accepted, do not leave it open when it is not going to be served
+			if err := netConn.Close(); err != nil {
+				onErrorFunc(fmt.Errorf("connection.close error, err: %w", err))
+			}
+			if s.OnCloseConnFunc != nil {
+				s.OnCloseConnFunc(cCtx, netConn.RemoteAddr(), s.isShutdown.Load())
+			}
 			return ErrServerClosed
 		default:
 		}
 
-		cCtx := context.WithValue(ctx, ContextRemoteAddr{}, netConn.RemoteAddr())
 		c := &connection{
 			conn:         netConn,
 			assembler:    s.AssemblerCreatorFunc(handler),
